@@ -142,7 +142,9 @@ def run_verbs(ctx, reqs, seed=7):
 
 
 def mlr(ctx, args, recs):
-    st, out, err = mlr_run(ctx, ["--seed", "7"] + IOFLAGS + args, enc(recs), timeout=30)
+    st, out, err = mlr_run(ctx, ["--seed", "7"] + IOFLAGS + args, enc(recs), timeout=120)
+    if st == "hang":            # a loaded machine, not a hang, until a long timeout says otherwise (none of these verbs loops)
+        st, out, err = mlr_run(ctx, ["--seed", "7"] + IOFLAGS + args, enc(recs), timeout=900)
     return st, dec(out), err
 
 
@@ -568,7 +570,7 @@ def run(ctx):
                                "regex library abstracted to a matcher parameter; literal patterns in the correspondence"]
     ctx.assumptions = ["uniq -a: the JSON text used as map key determines the record", "random draws are an arbitrary oracle list in the model (at least one draw per record for sample)"]
     forbidden_gate(ctx, ["Base", "C11"])
-    ok, why = check_props(ctx, "C11/Props.v", ["C11/Harness.vo", "C11/Proofs.vo", "C11/Proofs2.vo", "C11/CheckerProofs.vo", "C11/SampleProofs.vo"])
+    ok, why = check_props(ctx, "C11/Props.v", ["C11/Harness.vo", "C11/Proofs.vo", "C11/Proofs2.vo", "C11/CheckerProofs.vo", "C11/SampleProofs.vo", "C11/UniqProofs.vo", "C11/ChainProofs.vo"])
     cases = gen_cases(ctx)
     fcases = gen_filter_cases(ctx)
     case_nrs = [gen_nrs(ctx.rng, len(c[4])) for c in cases]
@@ -820,7 +822,7 @@ def replay(ctx, path):
         if v:
             ctx.violation(dict(obj, replayed=True, observed=show(y)))
         return
-    st, out, err = mlr_run(ctx, ["--seed", "7"] + argv[1:], enc(inp), timeout=30)
+    st, out, err = mlr_run(ctx, ["--seed", "7"] + argv[1:], enc(inp), timeout=300)
     got = show(dec(out))
     print("replay: argv=%s\n input=%s\n observed=%s\n previously=%s" % (argv, obj["input"], got, obj.get("observed")))
     ctx.count(("replay", argv, obj["input"]))
